@@ -169,11 +169,14 @@ pub fn snapshot(root: &Path) -> BTreeMap<String, Node> {
 }
 
 /// One entry's logical content as the CLI model sees it (mirror of Lean `Cli.LEntry` wire form).
-#[derive(Debug, Clone, PartialEq, Eq)]
+#[derive(Debug, Clone, Eq)]
 pub struct LEntry {
     pub name: String,
     pub kind: u8,
-    pub data: String, // header options + digest of the stored data chunks (never re-encoded by edits)
+    /// stored form and content: three digits (codec, cipher, cipher mode of the entry header), then a digest of the decoded
+    /// content (`c…`) or, where it cannot be decoded with what the case knows, of the stored data chunks (`s…`)
+    pub data: String,
+    pub stored_len: usize,
     pub raw_size: Option<u128>,
     pub mode: Option<u16>,
     pub owner: Option<(u64, String, u64, String)>,
@@ -183,6 +186,14 @@ pub struct LEntry {
     pub xattrs: Vec<(String, Vec<u8>)>,
     pub extras: Vec<([u8; 4], Vec<u8>)>,
     pub content: Option<Vec<u8>>, // decoded (when a password is available)
+}
+
+/// equality of logical content: the length of the stored data (a listing detail) is not part of it
+impl PartialEq for LEntry {
+    fn eq(&self, o: &Self) -> bool {
+        (&self.name, self.kind, &self.data, self.raw_size, self.mode, &self.owner, self.c, self.m, self.a, &self.xattrs, &self.extras, &self.content)
+            == (&o.name, o.kind, &o.data, o.raw_size, o.mode, &o.owner, o.c, o.m, o.a, &o.xattrs, &o.extras, &o.content)
+    }
 }
 
 #[derive(Debug, Clone, PartialEq, Eq)]
@@ -206,7 +217,17 @@ pub fn lentry(e: &NormalEntry, password: Option<&str>) -> LEntry {
     LEntry {
         name: h.path().as_str().to_string(),
         kind: h.data_kind() as u8,
-        data: format!("{}.{}.{}.{}", h.compression() as u8, h.encryption() as u8, h.cipher_mode() as u8, crate::canon::digest(&all)),
+        data: format!(
+            "{}{}{}{}",
+            h.compression() as u8,
+            h.encryption() as u8,
+            h.cipher_mode() as u8,
+            match &content {
+                Some(c) => format!("c{}", crate::canon::digest(c)),
+                None => format!("s{}", crate::canon::digest(&all)),
+            }
+        ),
+        stored_len: all.len(),
         raw_size: m.raw_file_size(),
         mode: m.permission().map(|p| p.permissions()),
         owner: m.permission().map(|p| (p.uid(), p.uname().to_string(), p.gid(), p.gname().to_string())),
